@@ -292,6 +292,7 @@ def main() -> int:
     from Reduino.transpile.parser import parse
 
     cap = 6 if tier() == "quick" else 720
+    missing_fields = set()
     total_shapes = 0
     per_callable = {}
     for sp in specs():
@@ -382,6 +383,10 @@ def main() -> int:
                     if param not in bound.arguments:
                         continue
                     exp = conv_expected(conv, bound.arguments[param])
+                    if not hasattr(node, field):
+                        # the IR node no longer has the attribute this table names: the check cannot observe that parameter
+                        missing_fields.add(f"{sp['node']}.{field}")
+                        continue
                     got = norm_node_value(getattr(node, field))
                     if sp["name"].startswith("LCD(") and param not in pos and param not in kw:
                         # defaults of the host constructor (None pins) have no node-side representation to compare
@@ -452,6 +457,9 @@ def main() -> int:
                         if param not in bound.arguments:
                             continue
                         exp = conv_expected(conv, bound.arguments[param])
+                        if not hasattr(node, field):
+                            missing_fields.add(f"{sp['node']}.{field}")
+                            continue
                         got = norm_node_value(getattr(node, field))
                         if not same(exp, got, conv):
                             key = f"{sp['name']}:{param}"
@@ -462,6 +470,8 @@ def main() -> int:
                                           f"bound to {got!r}, Python binds {exp!r}", {"script.py": script}, key="sequence:" + key)
                             n_bad += 1
         per_callable[sp["name"]] = {"agree": n_ok, "rejected": n_rej, "disagree": n_bad}
+    if missing_fields:
+        rep.inconclusive_because(f"IR node attributes named by the observation table do not exist (renamed?): {sorted(missing_fields)[:8]}")
     rep.extra["per_callable"] = per_callable
     rep.extra["callables"] = len(per_callable)
     rep.rule = ("every positional/keyword split, keyword permutation (capped per split in quick tier) and subset of "
